@@ -26,6 +26,11 @@ def run(chk: Check) -> None:
     from .c19 import loader_precedence
     snapshot_isolation(chk)
     loader_precedence(chk, 'PROV-loader')
+    from .c19 import class_loaded_by_loader
+    class_loaded_by_loader(chk, 'PROV-loader')
+    # "a continue task resumes exactly the persisted checkpoint": every field of the process is saved under a key and restored from it (shared with C07 / C08)
+    from .c07 import persisted_fields
+    persisted_fields(chk)
     pl = prog.cls('process_comms.ProcessLauncher')
     call = prog.view(pl.vmethods['__call__'])
     # 1. DISP
